@@ -71,7 +71,7 @@ def install():
 
 def cases(tier, seed):
     out = []
-    reps = 3 if tier == "quick" else 60
+    reps = 3 if tier == "quick" else 240
     for rep in range(reps):
         for ff in common.FFS:
             for g in GROUPS:
@@ -79,10 +79,10 @@ def cases(tier, seed):
                     for side in ("below", "above"):
                         out.append({"kind": "cell", "ff": ff, "group": g, "pos": pos, "side": side,
                                     "seed": seed * 1009 + rep * 100000 + len(out)})
-    ns = 24 if tier == "quick" else 700
+    ns = 24 if tier == "quick" else 2500
     for i in range(ns):
         out.append({"kind": "sweep", "ff": common.FFS[i % 6], "seed": seed * 7001 + i})
-    npk = 3 if tier == "quick" else 36
+    npk = 3 if tier == "quick" else 100
     for i in range(npk):
         out.append({"kind": "propka", "ff": ["PARSE", "AMBER", "CHARMM", "SWANSON", "TYL06", "PEOEPB"][i % 6],
                     "seed": seed * 9001 + i})
